@@ -1781,6 +1781,14 @@ static bool ts_parser__advance(
       return true;
     }
 
+    // A node reused from the old tree stands for its first leaf here (the table
+    // entry was looked up for that leaf's symbol). When it is not valid, go on
+    // with the leaf itself: it may be a keyword that can still be taken as the
+    // word token, as it would be had it just been lexed.
+    if (lookahead.ptr && ts_subtree_child_count(lookahead) > 0) {
+      ts_parser__breakdown_lookahead(self, &lookahead, ERROR_STATE, &self->reusable_node);
+    }
+
     // If the current lookahead token is a keyword that is not valid, but the
     // default word token *is* valid, then treat the lookahead token as the word
     // token instead.
